@@ -214,6 +214,14 @@ def step_reconstruct(w, how, j, ctor):
             b = b.base
         if b is not nd and b.flags.writeable:
             return
+        # likewise, numpy cannot protect memory that a *pre-existing, distinct* writable ndarray (e.g. a view taken from a
+        # writable copy before this field exists) already aliases: setting the flag on one array object does not reach
+        # views created earlier.  Such sources are "another alias of the same memory" as well.
+        for t2 in w.targets:
+            o2 = t2["obj"].val if isinstance(t2["obj"], ift.AnyArray) else t2["obj"]
+            if isinstance(o2, np.ndarray) and o2 is not nd and o2.flags.writeable and o2.size and nd.size \
+                    and np.shares_memory(o2, nd):
+                return
         dom = domain_for(tuple(new.shape))
         if ctor == "Field":
             f = ift.Field(dom, new)
